@@ -1,7 +1,7 @@
 (** C06 — no session outlives its maximum lifetime or its inactivity timeout. *)
 From Coq Require Import ZArith NArith Bool List.
 From WW Require Import Gen.Params Base.AMap Model.SessionTime Model.Machine Model.Entry
-     Proofs.SessionTimeP Proofs.MachineP Proofs.MachineLifeP.
+     Proofs.SessionTimeP Proofs.MachineP Proofs.MachineLifeP Proofs.MachineModeP.
 Import ListNotations.
 Open Scope Z_scope.
 
@@ -34,6 +34,18 @@ Theorem c06_validate_exact : forall has_at m now,
   has_at = true /\ now <= ends m /\ (forall t, timeout m = Some t -> now <= t).
 Proof. exact validate_valid. Qed.
 Print Assumptions c06_validate_exact.
+
+(** A refresh grant is decided only right after the re-read under the lock returned a session that passes this
+    test at that instant (and has a refresh token whose cooldown has passed): an ended or inactive session is
+    never refreshed. *)
+Theorem c06_grant_only_for_valid_session : forall c w t f old tok start w' t' o old' cur tok' start',
+  t_phase t = PReread old tok start -> step c w t f = (w', t', o) -> t_phase t' = PIdp old' cur tok' start' ->
+  exists e, store_get w (cookie_key (t_cookie t)) = Some e /\
+            classify_entry (cookie_dek (t_cookie t)) e (w_clock w) = GOk cur /\
+            has_rt cur = true /\ on_cooldown (c_tp c) (sd_md cur) (w_clock w) = false /\
+            t_cancel t = false /\ f <> FStore.
+Proof. exact grant_decision. Qed.
+Print Assumptions c06_grant_only_for_valid_session.
 
 Example c06_nonvacuous :
   let c := mk_config true false false (Some (1800 * second)) (7200 * second) 0 0 false false true true true in
